@@ -78,7 +78,23 @@ def opt_strings(req, rng):
     for key, e in req["ode_mods"].items():
         for f, d in zip(e["factors"], e["reactants"]):
             oms.append(f"{key}:{f},[{' '.join(d)}]")
-    return o, rms, ([";".join(oms)] if oms else [])
+    # the option may be given once (items joined by ';') or several times, each occurrence with or without a trailing ';'
+    # (`naunet example --dry` prints the latter form)
+    style = rng.choice(["joined", "joined;", "each", "each;", "split"])
+    if not oms:
+        occ = []
+    elif style == "joined":
+        occ = [";".join(oms)]
+    elif style == "joined;":
+        occ = [";".join(oms) + ";"]
+    elif style == "each":
+        occ = list(oms)
+    elif style == "each;":
+        occ = [x + ";" for x in oms]
+    else:
+        k = rng.randint(1, len(oms))
+        occ = [";".join(oms[:k]) + ";"] + ([";".join(oms[k:])] if oms[k:] else [])
+    return o, rms, occ
 
 
 ORDER = ["name", "description", "loading", "elements", "pseudo-elements", "element-replacement", "surface-prefix", "bulk-prefix", "allowed-species",
